@@ -197,6 +197,21 @@ func enumerate(thorough bool) (cells []*Cell, nominal int, skipped skipCount) {
 								c.ID = fmt.Sprintf("%s/%s/%s/%s/%s/%s", cfg, f.name, site, mode, pers, pos)
 								s.Msg = "c06-user-message[" + strings.ReplaceAll(c.ID, "/", ".") + "]"
 								cells = append(cells, c)
+								// forced interleavings of the failing map-side task with its peer (the
+								// task of the other shard, on the same machine: they share the
+								// machine's combine buffers under MachineCombiners): the transient
+								// failure happens while the peer is still running / after the peer
+								// has read all its input
+								if (cfg == "vsys" || cfg == "vsysmc") && f.name == "reduce" && (st.site == "reader" || st.site == "writer") && isTemp(mode) && pers != "always" {
+									for _, gate := range []string{"peer-running", "peer-done"} {
+										nominal++
+										g := *c
+										g.Spec.Gate = gate
+										g.ID = c.ID + "+" + gate
+										g.Spec.Msg = "c06-user-message[" + strings.ReplaceAll(g.ID, "/", ".") + "]"
+										cells = append(cells, &g)
+									}
+								}
 							}
 						}
 					}
@@ -657,6 +672,8 @@ func main() {
 		fired        int
 		atLoc        int
 		combCells    int
+		gated        int
+		gatedForced  int
 		maxFired     int64
 		maxFiredID   string
 		sigCells     = map[string][]string{}
@@ -695,6 +712,14 @@ func main() {
 			}
 			if o.obs.Ms > slowest && o.obs.Hang == "" {
 				slowest = o.obs.Ms
+			}
+			if c.Spec.Gate != "" {
+				gated++
+				if o.obs.GateWaits > 0 && o.obs.GateTimeouts == 0 {
+					gatedForced++
+				} else {
+					r.Note("interleaving not forced (gate waits=%d timeouts=%d): %s", o.obs.GateWaits, o.obs.GateTimeouts, c.ID)
+				}
 			}
 			if c.Spec.Site == "combiner" {
 				combCells++
@@ -777,7 +802,7 @@ func main() {
 		"evaluations":         atomic.LoadInt64(&nRuns),
 		"distinct_nontrivial": fired,
 		"rule": "cells = call site {ReaderFunc, WriterFunc, Map, Filter, Flatmap, Fold, Reduce combiner @ task-local table / shared (per-task or per-machine) combine buffer / consumer-side merge, Repartition fn, Scan callback} x mode {error, temporary (base errors.Temporary), temporary (net-style Temporary()), temporary (one package-level *errors.Error sentinel returned every time), panic, partition >= n, partition < 0} x {always, once, twice (temporary modes; fails the first two times it is reached in a run)} x position {first row, first row after the vector boundary, last row (of the last shard), at EOF} x pipeline {armed operator last; ... -> Reduce} x configuration {local, verifsystem 1 machine, same + MachineCombiners (+ 2 machines for the consumer merge)" +
-			map[bool]string{true: ", verifsystem 4 one-proc machines", false: ""}[r.Thorough()] + "}; vector size 3 with 7 rows/shard (4 and 9 where a Reduce is present: combining frames need a power of two); 2 shards. After the failing run the failing Func is run again in the same session (local: once per proc; clusters: once; transient failures fire again in each of these runs and must again go away), then a healthy Func whose tasks are Exclusive (need all procs). A cell is non-trivial iff its user function actually delivered the failure (counted by the function itself) or the process died in it. evaluations = cell executions including confirmation re-runs.",
+			map[bool]string{true: ", verifsystem 4 one-proc machines", false: ""}[r.Thorough()] + "}; vector size 3 with 7 rows/shard (4 and 9 where a Reduce is present: combining frames need a power of two); 2 shards. For transient temporary failures of ReaderFunc/WriterFunc feeding a Reduce on the cluster configurations additionally two forced interleavings (user functions coordinate through in-process gates, 20 s gate timeout = not forced): the other shard's task is still running when the failing attempt exits and until its re-run has read its input / has read all its input before the first failure. After the failing run the failing Func is run again in the same session (local: once per proc; clusters: once; transient failures fire again in each of these runs and must again go away), then a healthy Func whose tasks are Exclusive (need all procs). A cell is non-trivial iff its user function actually delivered the failure (counted by the function itself) or the process died in it. evaluations = cell executions including confirmation re-runs.",
 		"cells_nominal":                             nominal,
 		"cells_meaningful":                          len(cells),
 		"cells_skipped":                             sk,
@@ -786,6 +811,8 @@ func main() {
 		"distinct_outcomes":                         outcomes.Distinct(),
 		"outcomes_by_configuration":                 perConfig,
 		"fired_locations":                           locs,
+		"gated_cells":                               gated,
+		"gated_cells_interleaving_forced":           gatedForced,
 		"combiner_cells":                            combCells,
 		"combiner_cells_fired_at_intended_location": atLoc,
 		"max_failures_delivered_in_one_cell":        maxFired,
